@@ -12,11 +12,11 @@ CLAIMED = {
              note="BLS (blst), dense mapping (Blake2b), Merkle membership (C09) and the lottery predicate (C08) are callee contracts; batch_verify and re-encodings are not under contract; std HashSet as a mathematical set.", ref="§4 C01"),
  "C03": dict(cat="proof", tech=VX + " (whole per-link acceptance rule) + Kani function contract on Epoch::has_gap_with",
              text="verify_certificate / verify_standard_certificate / verify_genesis_certificate and every sub-check verified modularly against the statement's per-link rule: no conjunct can be dropped or weakened without a named obligation failing.",
-             note="Hashing, multi-signature verification (C01), Ed25519 and key decoding are uninterpreted callee contracts; reaching genesis needs hash acyclicity (assumed); the default verify_certificate_chain loop and the client cache are not under contract.", ref="§4 C03"),
+             note="Hashing, multi-signature verification (C01), Ed25519 and key decoding are uninterpreted callee contracts; reaching genesis needs hash acyclicity (assumed); the default verify_certificate_chain loop and mithril-client's chain walk (default features) are verified for partial correctness; the client's optional verifier cache (feature unstable) is not under contract.", ref="§4 C03"),
  "C05": dict(cat="other", tech=KV + " (built-in panic / bounds / overflow / capacity checks), bounded in input length",
              text="Bounded stand-in: every hand-written legacy decoder of mithril-stm is run by Kani on all byte strings of a few stated lengths; obligations are Kani's panic, bounds, arithmetic-overflow and capacity-overflow checks.",
              note="Bounded in input length (never counted as proved); blst point validation and ciborium are assumed total; round trips and serde/JSON/hex decoders are not decided.", ref="§4 C05"),
- "C06": dict(cat="proof", tech=KV + ", 96-byte comparison loop completely unrolled + " + VX + " (SignerBuilder::new)",
+ "C06": dict(cat="proof", tech=KV + ", 96-byte comparison loop completely unrolled + " + VX + " (SignerBuilder::new and the three computation paths: client, signer, aggregator)",
              text="The Ord impls of the registration entry types are proved to be the lexicographic total order on (stake, 96-byte key encoding) - the law that makes BTreeSet iteration order, hence leaf order, signer slots and the aggregate key, a function of the registered set; SignerBuilder::new (the single function through which signer, aggregator and client derive the key) registers each listed signer with its own material against the stake distribution derived from the same list.",
              note="PARTIAL: blst encoding as contract stub; std BTreeSet ordered by Ord (assumed); order-independence of the executed registration code, serde round trips and collision resistance are not decided.", ref="§4 C06"),
  "C07": dict(cat="proof", tech=VX + " (KES window, KeyRegWrapper::register, OpCert::validate, mithril-stm registration)",
@@ -40,16 +40,18 @@ CLAIMED = {
  "C18": dict(cat="proof", tech=KV + ": representation invariant + per-operation contracts from arbitrary invariant states",
              text="Inv (len <= size, single generation) and per-operation contracts of the real generic pool instantiated with generation-tagged resources: an induction over all sequential histories for the stated capacities.",
              note="Capacity <= 2 (shapes enumerated); no threads in Kani: interleavings inside one operation and the wake-up clause are not decided.", ref="§4 C18"),
- "C20": dict(cat="proof", tech=KV + ", loop-free over all epochs + " + VX + " (signer-side eligibility gate)",
-             text="PARTIAL: the epoch-offset algebra shared by signer and aggregator (a key recorded at e is retrieved for signing at e + signing offset; next signers of e are current signers of e+1; retrieval fails exactly at epoch 0), and the signer's gate can_signer_sign_current_epoch (true only with stored key material for the epoch whose key is the one listed for this party).",
+ "C20": dict(cat="proof", tech=KV + ", loop-free over all epochs + " + VX + " (signer-side eligibility gate; both epoch services: which offset keys which store access)",
+             text="PARTIAL: the epoch-offset algebra shared by signer and aggregator (a key recorded at e is retrieved for signing at e + signing offset; next signers of e are current signers of e+1; retrieval fails exactly at epoch 0), both epoch services keyed by exactly those offsets (key material / signer set in force at e = saved / recorded under e - 1, next under e, registration settings under e + 1; aggregate keys from SignerBuilder on exactly those sets), and the signer's gate can_signer_sign_current_epoch (true only with stored key material for the epoch whose key is the one listed for this party).",
              note="At-most-once signing per beacon, restarts and acceptance by the aggregator at run level (async state machines over SQLite) are not decided.", ref="§4 C20"),
+ "C14": dict(cat="proof", tech=VX + " (the aggregator's certifier service and epoch service)",
+             text="PARTIAL: the clauses decided at the moment a certificate is sealed or a signature registered: create_certificate seals only an existing, uncertified, unexpired open message, for exactly its epoch / protocol message / signed entity type / multi-signature, with the aggregate key and parameters the epoch service holds as current (themselves SignerBuilder's result for the signer set recorded under e - 1), linked to the repository's master certificate of that epoch, verified by the certificate verifier before being stored, and marks the open message certified; register_single_signature stores only signatures the multi-signer accepted for an open, unexpired, uncertified message; verify_certificate_chain refuses an epoch gap.",
+             note="Run-level clauses (every stored certificate verifies to genesis for every run, quorum of registered signers, no double certification across interleavings / restarts, first-of-epoch linking decided by SQL, stopping after a skipped epoch as state-machine behaviour) are NOT decided: they need the async state machine and the database.", ref="§0.2 C14"),
 }
 NA = {
  "C04": "Tamper-evidence is injectivity of a byte-string pre-image built from Strings, chrono timestamps, JSON-hex keys and serde_json round trips under SHA-256: Verus has no str/byte reasoning, CBMC cannot execute serde/JSON/hex symbolically beyond a few bytes, and 'different pre-image => different hash' is an assumption, so no contract within reach expresses or decides it.",
  "C10": "The acceptance decision is computed inline in an async routine over the file system, a digester task and Merkle-mountain-range calls; no function boundary exists at which 'content bound to file name' can be stated without modelling the directory, and neither verifier accepts that code.",
  "C12": "Quantifies over directory layouts, file contents and cache histories; the code is walkdir/std::fs/tokio spawn_blocking plus an async cache provider - I/O that neither Kani (FFI) nor Verus can execute; the property is about the environment, not about one call.",
  "C13": "A convergence property over histories of roll-forward / roll-back / restart against SQLite; the mechanism is SQL executed by an external engine. Contracts on the Rust wrappers would only restate the SQL text.",
- "C14": "Invariant over all interleavings of a five-state async machine, a database and asynchronous signature registration; needs a model or a history explorer - a different family.",
  "C15": "Crash points between persistence steps: a property of process death and restart, not expressible as pre/postcondition of any function that returns.",
  "C19": "Tar/zstd unpacking, HTTP download, file moves and failure injection on the file system; nothing here is within either verifier's input language, and the property is about directory contents after an I/O sequence.",
 }
